@@ -101,7 +101,18 @@ def gen_long_index(ch):
     return dict(table={"?": 8}, smiles=smi, truth=truth, source="template")
 
 
+def gen_digit_placement(ch):
+    """small ring-rich molecules around atoms that can carry 5-6 bonds, spelled with ring digits before, between and
+    after the branches of an atom (accepted, although OpenSMILES puts ring bonds first)"""
+    m = GM.gen_molecule(ch, max_atoms=10, stereo=60, brackets=5, aromatic=0, fragments=3, rings=8, hubs=True)
+    w = GM.write(m, ch, digit_after_branch=45)
+    if w is None:
+        return None
+    return dict(table=RTM.table_for(ch, w["truth"], "fit"), smiles=w["smiles"], truth=w["truth"], source="generated")
+
+
 def shard(ctx):
     ctx.drive("main", gen_case, ctx.n(2500, 40000), max_bytes=1200)
     ctx.drive("long_index", gen_long_index, ctx.n(10, 60), max_bytes=64)
     ctx.drive("plain", lambda ch: RTM.gen_case(ch, max_atoms=24, table_mode="fit"), ctx.n(1000, 15000), max_bytes=900)
+    ctx.drive("digit_placement", gen_digit_placement, ctx.n(1500, 20000), max_bytes=500)
